@@ -224,7 +224,7 @@ def entry_of(info, root):
     return rc, calls[0]
 
 
-def weave(job, cpath, info, outdir):
+def weave(job, cpath, info, outdir, witness_mode=False):
     """produce the woven C file for one job; returns dict with paths and maps"""
     src = open(cpath).read()
     rootc, entry = entry_of(info, job.root)
@@ -239,9 +239,11 @@ def weave(job, cpath, info, outdir):
                 continue
             c = con(info['functions'][cn]) if callable(con) else con
             if c is None:
-                continue
+                raise Undecided('stub pattern %r matches %s but yields no contract' % (pat, info['functions'][cn]['pretty']))
             if cn in contracts:
                 raise Undecided('two stub patterns match %s' % info['functions'][cn]['pretty'])
+            if witness_mode and info['functions'][cn].get('kind') == 'lifted':
+                continue      # witness search: run the real callee body instead of its contract
             contracts[cn] = c
             replaced.append(cn)
     # every bodiless function reachable from the entry needs a contract
@@ -267,6 +269,9 @@ def weave(job, cpath, info, outdir):
             for o in f.get('loops', []):
                 if (cn, o) not in loops:
                     missing.append('%s#%d' % (f['pretty'], o))
+    if witness_mode:
+        loops = {}
+        missing = []
     if missing and job.unwind is None:
         raise Undecided('loops without loop contract and no unwind bound: %s' % missing)
 
@@ -330,9 +335,9 @@ def run_cmd(cmd, timeout, log):
     return rc, so, se, time.time() - t0
 
 
-def run_job(job, cpath, info, tier):
+def run_job(job, cpath, info, tier, defines=(), subdir=None, witness_mode=False):
     """returns result dict: status in {'ok','failed','undecided'}, obligations list"""
-    jdir = os.path.join(WORK, 'jobs', job.group, job.name)
+    jdir = os.path.join(WORK, 'jobs', job.group, job.name + (subdir or ''))
     shutil.rmtree(jdir, ignore_errors=True)
     os.makedirs(jdir, exist_ok=True)
     res = {'job': job.name, 'group': job.group, 'root': job.root, 'status': 'undecided', 'reason': '',
@@ -340,7 +345,7 @@ def run_job(job, cpath, info, tier):
     log = open(os.path.join(jdir, 'log.txt'), 'w')
     try:
         try:
-            w = weave(job, cpath, info, jdir)
+            w = weave(job, cpath, info, jdir, witness_mode)
         except Undecided as ex:
             res['reason'] = 'weave: %s' % ex
             return res
@@ -348,7 +353,7 @@ def run_job(job, cpath, info, tier):
         res['entry_pretty'] = info['functions'][w['entry']]['pretty']
         res['replaced'] = [info['functions'][c]['pretty'] for c in w['replaced']]
         a = os.path.join(jdir, 'a.gb'); b = os.path.join(jdir, 'b.gb')
-        rc, so, se, dt = run_cmd(['goto-cc', '--function', 'main', '-DVF_CBMC', '-I', os.path.join(VERIF, 'contracts'),
+        rc, so, se, dt = run_cmd(['goto-cc', '--function', 'main', '-DVF_CBMC'] + list(defines) + ['-I', os.path.join(VERIF, 'contracts'),
                                   w['path'], '-o', a], 120, log)
         if rc != 0:
             res['reason'] = 'goto-cc: ' + (se + so)[-2000:]
@@ -370,7 +375,9 @@ def run_job(job, cpath, info, tier):
             res['reason'] = 'goto-instrument: ' + (se + so)[-2000:]
             return res
         cmd = ['cbmc', b] + CBMC_CHECKS + ['--json-ui', '--trace'] + job.flags
-        if job.unwind is not None:
+        if witness_mode:
+            cmd += ['--unwind', '30']
+        elif job.unwind is not None:
             cmd += ['--unwind', str(job.unwind), '--unwinding-assertions']
         if job.solver == 'z3':
             cmd += ['--z3']
